@@ -6,6 +6,7 @@ package stime
 
 import (
 	"time"
+	"unsafe"
 
 	"github.com/welllog/golib/zzsim/core"
 )
@@ -77,11 +78,52 @@ type Ticker struct {
 	tm *core.Timer
 }
 
+func chanPtr(ch <-chan Time) unsafe.Pointer { return *(*unsafe.Pointer)(unsafe.Pointer(&ch)) }
+
+func newChan(tm *core.Timer) <-chan Time {
+	ch := make(chan Time) // never ready: a receive the rewriter missed blocks for real (watchdog)
+	var ro <-chan Time = ch
+	core.RegisterChan(chanPtr(ro), tm)
+	return ro
+}
+
 func NewTicker(d Duration) *Ticker {
 	if d <= 0 {
 		panic("non-positive interval for NewTicker")
 	}
-	return &Ticker{C: make(chan Time), tm: core.NewTimer(int64(d), int64(d))}
+	tm := core.NewTimer(int64(d), int64(d))
+	return &Ticker{C: newChan(tm), tm: tm}
+}
+
+// After returns a channel value tied to a simulated one-shot timer.
+func After(d Duration) <-chan Time { return newChan(core.NewTimer(int64(d), 0)) }
+
+// Tick returns a channel value tied to a simulated ticker.
+func Tick(d Duration) <-chan Time { return newChan(core.NewTimer(int64(d), int64(d))) }
+
+// Recv replaces `<-ch` for every channel of time.Time.
+func Recv(ch <-chan Time) Time {
+	if tm := core.LookupChan(chanPtr(ch)); tm != nil {
+		at, _ := core.YieldTimer(tm)
+		return Base.Add(Duration(at))
+	}
+	return <-ch
+}
+
+// Sel is the outcome of a simulated select: I is the index of the case taken (-1 = default).
+type Sel struct {
+	I int
+	T Time
+}
+
+// Select replaces a select statement whose cases all receive from channels of time.Time.
+func Select(hasDefault bool, chans ...<-chan Time) Sel {
+	tms := make([]*core.Timer, len(chans))
+	for i, ch := range chans {
+		tms[i] = core.LookupChan(chanPtr(ch))
+	}
+	i, at := core.YieldSelect(tms, hasDefault)
+	return Sel{I: i, T: Base.Add(Duration(at))}
 }
 
 func (t *Ticker) Stop()            { t.tm.Stop() }
@@ -97,7 +139,8 @@ type Timer struct {
 }
 
 func NewTimer(d Duration) *Timer {
-	return &Timer{C: make(chan Time), tm: core.NewTimer(int64(d), 0)}
+	tm := core.NewTimer(int64(d), 0)
+	return &Timer{C: newChan(tm), tm: tm}
 }
 
 func (t *Timer) Stop() bool { t.tm.Stop(); return true }
